@@ -57,6 +57,13 @@ def run_shard(spec, shard):
                 lib.compile_(m, shared)
                 shard.notes["rejected-mutants-compiled-on-the-shared-environment"] += 1
         lib.compile_(mutate.token_sequence(r), shared)
+        if r.random() < 0.15:
+            lq = long_valid(r)
+            v, _, _ = accept.verdict(lq)
+            if v != "VALID-WELLTYPED":
+                from vlib.runner import HarnessError
+                raise HarnessError(f"long_valid produced a query the reference does not accept: {lq[:80]!r}... ({v})")
+            _one(shard, lq, "long-or-deep", {"long-or-deep"}, None)
         # truncations leave brackets, parentheses, strings and calls open at the point of failure
         for _ in range(4):
             cut = r.randrange(1, len(text) + 1)
@@ -73,6 +80,42 @@ def run_shard(spec, shard):
                 shard.notes["balanced-damage-compiled-on-the-shared-environment"] += 1
 
     drive(rng(), spec["n"], spec["seed"], body)
+
+
+def long_valid(r):
+    """Valid queries that are long or deeply nested: sizes around typical thresholds (64/128/256/...)."""
+    k = r.choice([63, 64, 65, 100, 127, 128, 129, 130, 200, 255, 256, 257, 300])
+    kind = r.randrange(12)
+    if kind == 0:
+        return "$" + r.choice([".a", "[0]", "[?(@.a)]", "[?@.a]", "..a", "[*]", "['a']", "[?(@.a == 1)]", "[?!(@.a)]"]) * k
+    if kind == 1:
+        return "$[" + ",".join([r.choice(["0", "'a'", "?@.a", "?(@.a)", "1:2", "*", "?@.a==1", "-1"])] * k) + "]"
+    if kind == 2:
+        sels = [r.choice(["0", "'a'", "?@.a", "?(@.b)", "1:2", "*", "?@.a==1 && (@.b)", "::2"]) for _ in range(k)]
+        return "$[" + ",".join(sels) + "]"
+    if kind == 3:
+        term = r.choice(["@.a", "(@.a)", "@.a==1", "!(@.b)", "match(@.a,'x')", "(@.a || @.b)", "!@.c", "count(@.*)>1"])
+        return "$[?" + r.choice([" && ", " || ", "&&", "||"]).join([term] * k) + "]"
+    if kind == 4:
+        d = r.choice([8, 16, 32, 48, 64, 100])
+        return "$[?" + "(" * d + "@.a" + ")" * d + "]"
+    if kind == 5:
+        d = r.choice([8, 16, 32, 48, 64])
+        return "$[?" + "!(" * d + "@.a" + ")" * d + "]"
+    if kind == 6:
+        d = r.choice([4, 8, 16, 32])
+        return "$" + "[?@" * d + ".a" + "]" * d
+    if kind == 7:
+        n = r.choice([255, 256, 1000, 1024, 5000])
+        return r.choice(["$['%s']", "$.%s", "$[?@.a=='%s']", '$["%s"]', "$..%s"]) % ("x" * n)
+    if kind == 8:
+        d = r.choice([4, 8, 16])
+        return "$[?" + "length(" * d + "value(@..a)" + ")" * d + " == 1]"
+    if kind == 9:
+        return "$" + "".join(r.choice([".a", "[0]", "[?(@.a)]", "..b", "[*]", "[1:2]", "['c','d']"]) for _ in range(k))
+    if kind == 10:
+        return "$[?" + " || ".join("(@.a%d && (@.b || !(@.c == %d)))" % (i, i) for i in range(k // 2)) + "]"
+    return "$" + " " * k + ".a" + "\n" * k + "[" + " " * k + "0" + "\t" * k + "]"
 
 
 def _one(shard, text, origin, forms, shared=None):
